@@ -153,7 +153,7 @@ def conformance(tier, seed, variant="plain"):
         rng.shuffle(hists)
         scen += history_scenarios(ms[:1] if not thorough else ms, hists[: (60 if not thorough else 1200)])
         out["scenarios"] = len(scen)
-        recs, crashed = pv.run_driver_resilient(exe, scen, timeout=3000)
+        recs, crashed = pv.run_driver_resilient(exe, scen, timeout=3000, scen_timeout=120)
         out["findings"] = _validate(scen, recs, crashed, out, variant)
         out["wall"] = round(time.time() - t0, 1)
         out["sample"] = {"model": ms[0]["build"], "calls": scen[len(scen) // 2]["calls"]}
